@@ -946,6 +946,15 @@ pub fn run(ctx: &Ctx) -> Outcome {
         if let Some(o) = cj.as_object_mut() {
             o.remove("read");
         }
+        if cj["kind"] == json!("long_list") {
+            let mut cov = Cov::new();
+            let mut viol = vec![];
+            crate::longlist::replay(&cj, &mut cov, &mut viol);
+            cov.sample(art["case"].clone());
+            cov.fill(&mut out, "replay of one case", false);
+            out.violations = viol;
+            return out;
+        }
         let c: Case = serde_json::from_value(cj).unwrap_or_else(|e| vcore::machinery_error(&format!("bad replay case: {e}")));
         let mut cov = Cov::new();
         let mut viol = vec![];
@@ -990,6 +999,8 @@ pub fn run(ctx: &Ctx) -> Outcome {
         cov.merge(c);
         viol.extend(v);
     }
+    // long-list family (shared with C27): sub-range / index reads whose last row spans several mini-block chunks
+    let long_scope = crate::longlist::run(ctx, &["2.0", "2.1", "2.2"], &mut cov, &mut viol);
     viol.sort_by_key(|v| (v.case["n"].as_u64().unwrap_or(0), v.case["ty"].to_string().len(), v.case.to_string().len()));
     if let Some(s) = viol.first() {
         cov.sample(s.case.clone());
@@ -1012,6 +1023,7 @@ pub fn run(ctx: &Ctx) -> Outcome {
         exhaustive,
     );
     out.set("files_planned", total as u64);
+    out.set("long_list_family", long_scope);
     out.set("files_done", done.load(std::sync::atomic::Ordering::Relaxed));
     if !exhaustive {
         out.set("cap_hit", format!("wall cap {deadline}s"));
